@@ -234,17 +234,17 @@ def _pf(lat, lon, i, surface, aa):
     return F.es(me, aa, 5, 17)
 
 
-def w_inter(_):
+def w_inter(bound):
     """re-entrancy (preemption bound 1, engine.interleave): a pair decode suspended before each of its source lines while
     the decode of another aircraft's pair runs to completion; both must give the answers they give alone."""
     from engine.util import interleaved_ok
     acc = Acc()
     for fn, cases in INTER:
-        bad_, n = interleaved_ok(getattr(pms.adsb, fn), cases())
+        bad_, n = interleaved_ok(getattr(pms.adsb, fn), cases(), bound=bound or 1)
         acc.n += n
         acc.c["interleaved_schedules"] += n
         for a_, nm, k_ in bad_:
-            acc.bad("%s:answer_changes_when_another_call_runs_in_between" % "airborne", {"inter": fn, "a": list(a_), "preempt_before_line_event": k_})
+            acc.bad("%s:answer_changes_when_another_call_runs_in_between" % "airborne", {"inter": fn, "a": list(a_), "preempt_before_line_event": k_, "bound": bound or 1})
         acc.out.add(("inter", fn))
     return acc.res()
 
@@ -260,7 +260,7 @@ INTER = [("airborne_position", _air_pairs), ("position", _air_pairs)]
 
 def w_any(t):
     if t[0] == "r":
-        return w_inter(None)
+        return w_inter(t[1])
     return {"l": w_lats, "s": w_sweep, "i": w_indep}[t[0]](t[1])
 
 
@@ -275,6 +275,8 @@ def run(ctx):
                    Fr(6 * 0x1FFFF, 131072) + 18, Fr(6, 131072) + 24, Fr(86), Fr(-865, 10)]
     tasks += [("i", [la]) for la in corner_lats]
     tasks.append(("r", None))
+    if ctx.thorough:
+        tasks.append(("r", 2))
     ctx.pmap(w_any, tasks)
     ctx.cov["latitudes"] = len(lats)
     ctx.cov["lattice_sweep_step"] = step
@@ -282,7 +284,7 @@ def run(ctx):
 
 def replay(case):
     if "inter" in case:
-        return [(s_, c_) for s_, c_ in w_inter(None)["viols"] if c_["inter"] == case["inter"]][:1]
+        return [(s_, c_) for s_, c_ in w_inter(case.get("bound"))["viols"] if c_["inter"] == case["inter"]][:1]
     s = judge(tuple(case["p"]))
     if not s:
         return []
